@@ -37,6 +37,9 @@ def run(ctx):
         nrand, nproc = 12500, 16
     for i in range(nproc):
         jobs.append((exe_asan, ['random', ctx.seed * 1000 + i, nrand]))
+    # coincidences between the running state and the data (what word-at-a-time or table-merging variants special-case)
+    for i in range(16):
+        jobs.append((exe_fast, ['echo', i * 4096, (i + 1) * 4096]))
     # long buffers (the length itself is an input of the routine: 2^k boundaries, multiples of 65536, pieces > 65535)
     for i in range(4 if ctx.tier == 'quick' else 16):
         jobs.append((exe_fast, ['long', ctx.seed * 77 + i, 22 if ctx.tier == 'quick' else 26]))
@@ -46,7 +49,7 @@ def run(ctx):
         jobs.append((exe_fast, ['huge', ctx.seed * 89, (1 << 32)]))
     with ThreadPoolExecutor(max_workers=16) as ex:
         results = list(ex.map(lambda j: (j, _run(*j)), jobs))
-    tot = {'pairs': 0, 'pairs2': 0, 'random': 0, 'long': 0, 'huge': 0}
+    tot = {'pairs': 0, 'pairs2': 0, 'random': 0, 'long': 0, 'huge': 0, 'echo': 0}
     splits = 0
     for (exe, args), r in results:
         if r.returncode != 0:
@@ -73,19 +76,20 @@ def run(ctx):
     if tot['pairs'] != expect_pairs:
         raise core.HarnessFailure('pairs enumerated %d != 2^24' % tot['pairs'])
     # check value through the library itself, via a one-off random-mode equivalent: done in harness 'random'
-    ctx.cov['evaluations'] = tot['pairs'] + tot['pairs2'] + tot['random'] + tot['long'] + tot['huge']
+    ctx.cov['evaluations'] = tot['pairs'] + tot['pairs2'] + tot['random'] + tot['long'] + tot['huge'] + tot['echo']
     ctx.cov['distinct_nontrivial'] = tot['pairs'] + tot['pairs2']   # enumerated spaces: all distinct by construction
     ctx.cov['exhaustive'] = True
     ctx.cov['rule'] = ('all 2^16 states x 2^8 bytes enumerated (distinct by construction, every one non-trivial: a table '
                        'lookup is exercised); two-byte inputs: %s; random buffers (len 0..4096, misalignment 0..7, initial '
                        'state 0 or random) compared whole / every 2-split (len<=40) / random k-split incl. empty pieces; '
-                       'long buffers up to 2^%d bytes in one call%s; distinct_nontrivial counts only the enumerated (state,input) pairs'
+                       'state-echo buffers (all 2^16 states x prefix 0..7 x data making state^data one of 7 special words x 00/FF fill); long buffers up to 2^%d bytes in one call%s; distinct_nontrivial counts only the enumerated (state,input) pairs'
                        % ('all 2^32 (state, 2 bytes)' if ctx.tier == 'thorough' else 'states 0..255 x 2^16',
                           22 if ctx.tier == 'quick' else 26, ' and two of 2^32(+17) bytes' if ctx.tier == 'thorough' else ''))
     ctx.cov['state_byte_pairs'] = tot['pairs']
     ctx.cov['state_two_byte_cases'] = tot['pairs2']
     ctx.cov['random_buffers'] = tot['random']
     ctx.cov['long_buffers'] = tot['long']
+    ctx.cov['state_echo_cases'] = tot['echo']
     ctx.cov['long_buffer_lengths'] = ('2^k-1, 2^k, 2^k+1 for k=8..%d; 2..9 x 65536 (+random tail); 24 random in [65536, 2^21); 24 random in '
                                       '[256, 70256); each whole, 2-split and k-split with pieces that may exceed 65535' % (22 if ctx.tier == 'quick' else 26))
     ctx.cov['huge_buffers'] = tot['huge']
